@@ -159,10 +159,17 @@ func (ac *affCtx) transparentLoops(call *ssa.Call, allowLoops bool) (*ssa.Functi
 	if strings.HasSuffix(callee.Name(), "$bound") {
 		return nil, false
 	}
-	if cp, fp := pkgOfFunc(callee), pkgOfFunc(ac.fn); cp == nil || fp == nil || cp != fp {
+	// a helper of the same package that is not exported - or any function that did not exist when the facts were written
+	// (an accessor introduced since, in whatever package): the facts cannot be phrased in terms of it
+	obj := objOfFunc(callee)
+	if obj == nil {
 		return nil, false
 	}
-	if obj := objOfFunc(callee); obj == nil || obj.Exported() {
+	if obj.Exported() {
+		if reviewedExported[fname(origin(callee))] {
+			return nil, false
+		}
+	} else if cp, fp := pkgOfFunc(callee), pkgOfFunc(ac.fn); cp == nil || fp == nil || cp != fp {
 		return nil, false
 	}
 	if wireVocabulary()[fname(callee)] {
@@ -299,6 +306,14 @@ func (ac *affCtx) form(v ssa.Value) *affForm {
 	case *ssa.UnOp:
 		if x.Op == token.SUB {
 			return affScale(ac.form(x.X), -1)
+		}
+		// a package-level variable that is only ever read and whose initialiser folds is as good as a constant
+		if g, ok := x.X.(*ssa.Global); ok && x.Op == token.MUL {
+			if gv := ac.c.globalTable(g); gv.k != nil && gv.k.Kind() == constant.Int {
+				if n, ok := constant.Int64Val(gv.k); ok {
+					return affConst(n)
+				}
+			}
 		}
 	case *ssa.Call:
 		if callee, ok := ac.inlinable(x); ok {
@@ -459,7 +474,7 @@ func (ac *affCtx) describe(v ssa.Value) string {
 		}
 		return "(" + ac.describe(x.X) + x.Op.String() + ac.describe(x.Y) + ")"
 	case *ssa.Phi:
-		if x.Comment == "rangeint.iter" {
+		if x.Comment == "rangeint.iter" || isCountingIndex(x) {
 			return "i"
 		}
 		// distinct phis stay distinct: numbered in block order within the function
@@ -532,7 +547,6 @@ func (ac *affCtx) argString(v ssa.Value) string {
 	return ac.describe(v)
 }
 
-
 // freeVarBinding describes, in the enclosing function's terms, the value a closure's free variable is bound to.
 func (ac *affCtx) freeVarBinding(fv *ssa.FreeVar) (string, bool) {
 	fn := fv.Parent()
@@ -561,7 +575,6 @@ func (ac *affCtx) freeVarBinding(fv *ssa.FreeVar) (string, bool) {
 	return pc.describe(bound), true
 }
 
-
 // renderFuncValueCall: a call through a function value; when the value is a method value "bound:T.m(recv)" the call is
 // rendered like the static call T.m(recv, args...), so that passing a method to a helper reads like calling it.
 func renderFuncValueCall(fv string, args []string) (string, []string) {
@@ -573,4 +586,46 @@ func renderFuncValueCall(fv string, args []string) (string, []string) {
 		}
 	}
 	return "call:" + fv, args
+}
+
+// isCountingIndex: the variable of `for i := 0; i < n; i++` - a phi at a loop head that starts at 0, grows by 1 on every
+// way round, and is tested `i < n` at the head against a bound that is not itself an arithmetic expression (n-1, n/2);
+// it visits 0..n-1 as the index of a range loop does.
+func isCountingIndex(phi *ssa.Phi) bool {
+	h := phi.Block()
+	loop := naturalLoop(h)
+	if loop == nil {
+		return false
+	}
+	if b, ok := phi.Type().Underlying().(*types.Basic); !ok || b.Info()&types.IsInteger == 0 {
+		return false
+	}
+	for i, e := range phi.Edges {
+		if !loop[h.Preds[i]] {
+			if k, ok := constInt(e); !ok || k != 0 {
+				return false
+			}
+			continue
+		}
+		add, ok := e.(*ssa.BinOp)
+		if !ok || add.Op != token.ADD || add.X != ssa.Value(phi) {
+			return false
+		}
+		if k, ok := constInt(add.Y); !ok || k != 1 {
+			return false
+		}
+	}
+	iff, ok := h.Instrs[len(h.Instrs)-1].(*ssa.If)
+	if !ok {
+		return false
+	}
+	cmp, ok := iff.Cond.(*ssa.BinOp)
+	if !ok || cmp.Op != token.LSS || cmp.X != ssa.Value(phi) || !loop[h.Succs[0]] || loop[h.Succs[1]] {
+		return false
+	}
+	switch cmp.Y.(type) {
+	case *ssa.BinOp, *ssa.Const:
+		return false
+	}
+	return true
 }
